@@ -547,7 +547,7 @@ PROPS = {
     "C18": {
         "pkgs": [MOD],
         "static": [("", "c18.go")],
-        "bounds": "all sequences of <= 3 (quick) / 4 (thorough) operations from {PrependBytes(n), AppendBytes(n), Clear}, n symbolic in 0..3, written bytes symbolic, both constructors with hints 0..2 symbolic; window harness: one op on a buffer holding 0..3 symbolic bytes, symbolic write position; SerializeLayers with 3 harness layers prepending 0..2 bytes each and a failure at any position",
+        "bounds": "all sequences of <= 3 (quick) / 4 (thorough) operations from {PrependBytes(n), AppendBytes(n), Clear}, n symbolic in 0..3 (enumerated 0..3 in the 4-operation unit), written bytes symbolic, both constructors with hints 0..2 symbolic; window harness: one op on a buffer holding 0..3 symbolic bytes, symbolic write position; SerializeLayers with 3 harness layers prepending 0..2 bytes each and a failure at any position",
         "outside": "longer histories and larger sizes (no sampling is done beyond the bound); the inductive single-step harness over arbitrary buffer states needs symbolic-size objects, which the engine does not have",
         "quick": {"units": "verif_C18_(seq2|seq3|window|stack)", "timeout": 600},
         "thorough": {"units": "verif_C18_(seq2|seq3|seq4|window|stack)", "timeout": 3000},
